@@ -3,7 +3,7 @@
    reconciliation model sync_job / sync_pods is C05/Model.v, the PodGroup
    derivation C06/Model.v). *)
 From Coq Require Import ZArith List Bool Permutation.
-From V Require Import C05.Model C05.JobCodec C06.Model C06.Laws C06.Lemmas.
+From V Require Import C05.Model C05.JobCodec C05.SyncLemmas C06.Model C06.Laws C06.Lemmas.
 Import ListNotations.
 Open Scope Z_scope.
 
@@ -20,6 +20,62 @@ Theorem C06_request_creates_none_while_pg_pending : forall w r F w' e wr,
   pg_admitted (v_pg w) = false -> w_pods w' = w_pods w.
 Proof. exact request_creates_none_while_pg_pending. Qed.
 Print Assumptions C06_request_creates_none_while_pg_pending.
+
+(* ---- the pod set.  [pass sp P] = the API server's pods after one fault-free
+   pass of syncJob (PodGroup admitted) over pods P seen through a fresh view;
+   [mark] = being deleted; [doomed] = own surplus (index outside the task's
+   replicas) or live out-of-sync; [wanted] = a replica index of a task whose
+   dependencies are met.  All for every spec and pod set with unique pod names. ---- *)
+
+(* exact pod set: nothing disappears, deleted = exactly the doomed pods, created =
+   exactly the wanted replicas that did not exist (Pending, live) *)
+Theorem C06_sync_exact_pods : forall fixed sp P, NoDup (pod_ids P) ->
+  a_err (sync_pods_gen fixed sp P P []) = false /\
+  forall t i,
+    find_pod t i (pass fixed sp P) =
+    match find_pod t i P with
+    | Some q => Some (if doomed sp q then mark q else q)
+    | None => if wanted sp P t i then Some (newpod t i) else None
+    end.
+Proof. exact sync_exact_pods. Qed.
+Print Assumptions C06_sync_exact_pods.
+
+(* the same on the world (syncJob proper) *)
+Theorem C06_sync_job_exact_pods : forall w u w' e wr,
+  sync_job w u [] = (w', e, wr) -> pg_admitted (v_pg w) = true -> st_phase (v_st w) <> PhNone ->
+  v_pods w = w_pods w -> NoDup (pod_ids (w_pods w)) ->
+  e = false /\
+  forall t i,
+    find_pod t i (w_pods w') =
+    match find_pod t i (w_pods w) with
+    | Some q => Some (if doomed (v_spec w) q then mark q else q)
+    | None => if wanted (v_spec w) (w_pods w) t i then Some (newpod t i) else None
+    end.
+Proof. exact sync_job_exact_pods. Qed.
+Print Assumptions C06_sync_job_exact_pods.
+
+(* repeating the pass changes no pod (and reports no error) *)
+Theorem C06_sync_idempotent : forall fixed sp P,
+  NoDup (map t_name (s_tasks sp)) -> NoDup (pod_ids P) ->
+  forall t i, find_pod t i (pass fixed sp (pass fixed sp P)) = find_pod t i (pass fixed sp P).
+Proof. exact sync_idempotent. Qed.
+Print Assumptions C06_sync_idempotent.
+
+(* crash / partial failure at ANY point (any set F of pod create / delete calls and
+   status updates that did not happen), restart (fresh view of what the API server
+   holds), retry: same pods as the undisturbed pass *)
+Theorem C06_crash_restart_converges : forall fixed sp P F,
+  NoDup (map t_name (s_tasks sp)) -> NoDup (pod_ids P) ->
+  let crashed := a_pods (sync_pods_gen fixed sp P P F) in
+  forall t i, find_pod t i (pass fixed sp crashed) = find_pod t i (pass fixed sp P).
+Proof. exact crash_restart_converges. Qed.
+Print Assumptions C06_crash_restart_converges.
+
+(* what an interrupted pass can leave behind: per pod name, untouched or the final state *)
+Theorem C06_faulty_sync_partial : forall fixed sp P F, NoDup (pod_ids P) ->
+  partial sp P (a_pods (sync_pods_gen fixed sp P P F)).
+Proof. exact faulty_sync_partial. Qed.
+Print Assumptions C06_faulty_sync_partial.
 
 (* after createOrUpdatePodGroup (create, or update after any scale up/down):
    MinMember, every task's MinTaskMember, PriorityClassName, MinResources mirror the spec *)
@@ -61,3 +117,12 @@ Example C06_nonvacuous :
   calc_min_resources sp xs = mkR 4 (2 * 250 + 2 * 100) (2 * 64) /\
   law_pg sp xs 2 true (pg_create sp xs 2) = true.
 Proof. exact pg_example. Qed.
+
+Example C06_nonvacuous_pod_set :
+  NoDup (map t_name (s_tasks ex_spec)) /\ NoDup (pod_ids ex_pods) /\
+  pass true ex_spec ex_pods =
+    [mkPod 1 0 PPending false false; mkPod 1 1 PRunning true true; mkPod 1 2 PRunning true false;
+     mkPod 2 0 PPending false false] /\
+  pass true ex_spec (pass true ex_spec ex_pods) = pass true ex_spec ex_pods /\
+  pass true ex_spec (a_pods (sync_pods ex_spec ex_pods ex_pods [FCreate 1 0; FDelete 1 2])) = pass true ex_spec ex_pods.
+Proof. exact pod_set_example. Qed.
